@@ -102,279 +102,169 @@ MetaData calculatedFrom
 metadata crc , }
 
 ")).
-Eval vm_compute in ("<<<M1710>>>" ++ check (runes_of_ascii "// top
-		options 
-        // c0
-
-  {
-	LittleEndian 
-	    // c2
-=	false
-        // c4
-    ; 
-    // c5
-	StringPrefixLenType
-// c6
-	=  
-  // c7
-  u8 
-// c8
-  ;  // c9
-ArrayPrefixLenType// c10
-  	= 	 // c11a
-	// c11b
-	u64 
-    // c12
-    	; 	 // c13a
-  // c13b
-		FixedStringPadFromLeft
-	    // c14
-    	=	false;
-	// c17
-  FixedStringPadChar  // c18a
-
-	// c18b
-  = 
-  // c19
-
-	' '  // c20a
-
-// c20b
-  ; 
-} 
-
-// c22
-  packet
-    // c23
-
-Reject // c24a
-// c24b
-{ 	 // c25a
-
-	// c25b
-    repeat char[ 
-4  ] 	 // c29a
-
-	// c29b
-    seqNo // c30
-  	, 	 // c31
-		string // c32
-
-Px
-
-// c33
-    	,
-
-// c34
-  }
-root
-packet
-
-Trade 	 // c38a
-    // c38b
-	{ 	 // c39a
-
-// c39b
-
-@rightPad 
-( // c41
-    '0'  // c42
-
-) 
-        // c43
-	char[
-        // c44
-	2 	 // c45
-    ]
-	msgKind// c47
-
-	,	// c48
-    repeat
-	// c49
-f64
-        // c50
-
-	price 	 // c51a
-	// c51b
-, InAcct79 
-    // c53
-  { 
-    // c54
-
-  repeat	// c55a
-
-  // c55b
-
-	Reject 
-        // c56
-	, 
-// c57
-zchar[	// c58a
-
-// c58b
-  	7  // c59
-
-] 	 // c60a
-  	// c60b
-
-OrderId
-
-    // c61
-
-,
-// c62
-		}	// c63
-    ,// c64
-  Reject  // c65a
-
-// c65b
-	,// c66
-
-}
-
-")).
-Eval vm_compute in ("<<<M1570>>>" ++ check (runes_of_ascii "root packet repeatCount {
-    @lengthOf(u8x)
-    @calculatedFrom(""1"")
-    @tag(007)
-    repeat zchar[42] Header `" ++ [28040; 24687; 31867; 22411]%N ++ runes_of_ascii "`,
-    match options1 as asx {
-        255 : roots,
-    },// a // b
-    Header @lengthOf(options1) ``,
-    Header @lengthOf(len) `{ , }`,
-    o matchKey `u8 x,`,
-}
-
-packet packetx {
-    zchar[255] crc,
-}
-
-packet Logon {
-    body {
-        float {
-            repeat Logon trueish,
-        },
-    },
-    @calculatedFrom(""`tick`"")
-    repeat char[0] f32a,
-    match body as float {
-        [65535, """ ++ [28040; 24687]%N ++ runes_of_ascii """] : calculatedFrom,
-    },
-    u32 float @calculatedFrom(""" ++ [233]%N ++ runes_of_ascii "t" ++ [233]%N ++ runes_of_ascii """),
-    string body @lengthOf(len) `
-        `,
-    u8x @calculatedFrom(""a\""b""),//	t
-    float64 options1 @calculatedFrom(""" ++ [128512]%N ++ runes_of_ascii """) `it's`,
+Eval vm_compute in ("<<<M282>>>" ++ check (runes_of_ascii "// a // b
+packet stringy	{
+string zchar ,
+    repeat T
+, match
+u
+as  charz {
+007
     //x
-    // trailing space 
-    match crc as chars {
-        3 : options1,
-        [10] : _x,
-        [""{,}""] : options1,
-        [
-            7, ""CRC32"", ""a\\"",
-            ""a\\"", ""packet""
-        ] : As,
-    },
-    i16 msg_type,
-}")).
-Eval vm_compute in ("<<<M1380>>>" ++ check (runes_of_ascii "
-
-  options 
+    :
+//	t
+// @lengthOf(
+float// trailing space 
+,""\" ++ [233]%N ++ runes_of_ascii """ : Logon ""a	b"":
+//	t
+//	t
+pack, } , match uint8x as
+    // " ++ [27880; 37322]%N ++ runes_of_ascii "
+    roots
 {
-	FixedStringPadFromLeft	= true  ;
-FixedStringPadChar 
-='0' ; 
-} 
-packet
-Leg
-
-    {repeat	InSym93
-    {zchar[  3
-] Acct
-
-    ,
-string
-	Side2,i32 Flags
-    ,
-f32  Note,
-	i32
-msgKind	,
-	} ,	f64 
-Note,  uint16 Px  , }
-packet Quote{
-	zchar[ 2 ]OrderId
-    ,
-}packet Ack
-	{ repeat	string	lastPx
-,zchar[ 4  ] 
-price
-	,
-
-uint32
-OrderId
-    ,
-
-    Quote
-
-, int8 Acct
+1
+    // `tick` ""quote"" 'q'
+    : len
+,	}
+//x
+// " ++ [27880; 37322]%N ++ runes_of_ascii "
+, }packet zchar {	roots options1
+    //x
+    `// not a comment` , int64 As
 ,
-    }	packet Fill	{
-
-    repeat
-Leg	, @rightPad
-
-    ('0' )char[11	] Note,f64
-    Px
-
-, @rightPad	( '\x00'
-    )
-char[
-
-    5
-	] Flags ,
-zchar[
-
-    9
-
-    ] x ,
-string msgKind,} 
-root	packet
-
-Order
-	{
-	Leg
-, repeat
-Ack
-,@rightPad	('\x00'
-
-) 
-char[
-	3 ]
-
-Side2 ,
-    repeat 
-char[	1	]	seqNo ,	u16
-
-    clOrdID, match
-clOrdID as Body  {
-198  :Leg
-
-    , 
-23	:
-    Quote, 13
-
-    :Ack ,159 :
-    Fill ,
-
-    } 
-, u32  venue
+    i16 float
+    @lengthOf( falsey
+    // " ++ [27880; 37322]%N ++ runes_of_ascii "
+    ) `a\`
+    , int64 msg_type `tab	here`
+, @tag(0
+    // `tick` ""quote"" 'q'
+    ) repeat uint8x ,
+    @lengthOf(x
+    ) repeat metadata
+    , zchar[ 0 ]	int , uint64
+    zchar ,zchar[7 // " ++ [27880; 37322]%N ++ runes_of_ascii "
+]
+msg_type
+,
 @calculatedFrom(
-	""CRC32""
+/// triple
+// " ++ [27880; 37322]%N ++ runes_of_ascii "
+""" ++ [28040; 24687]%N ++ runes_of_ascii """ ) crc
+, }
+root packet zchar { repeat
+leftPad,
+} packet
+A{
+@lengthOf(
+    string_ )	x@lengthOf( options1) `two words`,  string
+len ,	}packet	falsey{ i64_ @calculatedFrom(	""{,}"" ) , repeat
+string chars
+, zchar[ 7]calculatedFrom
+, Header
+    { char u`two words`, repeat char[] // c
+tag
+    `say ""hi""`	, Z9_
+    @lengthOf(
+T ) `line1
+line2` , } , msg_type @calculatedFrom( ""// no comment""
+    ) , @rightPad (// packet A { u8 x, }
+'\x00' )
+@lengthOf( asx )
+falsey
+,
+    } // packet A { u8 x, }")).
+Eval vm_compute in ("<<<M129>>>" ++ check (runes_of_ascii "packet
+MetaDataX { metadata trueish`" ++ [233]%N ++ runes_of_ascii "`
+//x
+//x
+,// trailing space 
+@calculatedFrom(""`tick`"" )uint8x
+    // c
+    @calculatedFrom(  """ ++ [128512]%N ++ runes_of_ascii """  ) `{ , }`
+    , @calculatedFrom( ""a\""b"" ) // packet A { u8 x, }
+match Packet as
+    body { 3
+    : repeatCount
+,""x y""
+    /// triple
+    :lengthOf// `tick` ""quote"" 'q'
+4294967296 :
+    packetx
+    , [ ""abc""
+, ""// no comment""
+    ,
+""abc"" ,
+""\n"" //	t
+, ""1""
+]: u128 [ 00 , 65535 ,""x y"" ,""{,}""  ]
+: calculatedFrom ,
+    7 :	i8i8  }, u8x ,match int as	matchKey{
+[1 ,""CRC32""]
+    // trailing space 
+    :// @lengthOf(
+asx,	}
+    , @lengthOf( // " ++ [128512]%N ++ runes_of_ascii " emoji
+a1) string x `it's` , repeat // @lengthOf(
+char matchKey  ,
+    // a // b
+    @leftPad // trailing space 
+( )@rightPad ( ) match
+metadata	as  Packet { [ 65535  ] : Header , }, @tag( 255)
+zchar[ 3 ] crc `u8 x,` ,} MetaData
+    rootA // trailing space 
+{
+i8i8	Pad , int8
+packetx `{ , }`
+,
+    int8 stringy,
+    // `tick` ""quote"" 'q'
+    body _x  , body o , }")).
+Eval vm_compute in ("<<<M1899>>>" ++ check (runes_of_ascii "options {
+    matchKey = ""x y"";
+    MetaDataX = '0';
+}
 
-    ) ,}
-")).
+packet msg_type {
+    @rightPad(' ')
+    repeat u128 body,
+    match body as pack {
+        [""\" ++ [233]%N ++ runes_of_ascii """, ""1""] : BodyLength,
+        [
+            255, 007, 007, 0123456789, ""a	b"",
+            ""a\\"", ""{,}""
+        ] : options1,
+    },
+    @leftPad()
+    @lengthOf(charz)
+    @tag(42)
+    o {
+        i32 msg_type @lengthOf(A) `doc`,
+        zchar[1] charz,// c
+        i8 packetx `{ , }`,
+        msg_type `crlf
+        line`,
+    },
+    @calculatedFrom(""\" ++ [233]%N ++ runes_of_ascii """)
+    Z9_ @calculatedFrom(""" ++ [128512]%N ++ runes_of_ascii """) `tab	here`,
+    repeat char[] Foo,
+    repeat zchar[0123456789] u128,
+}
+
+packet f32a {
+    f32a @lengthOf(matchKey),
+    @rightPad(' ')
+    @lengthOf(chars)
+    _x Foo ``,
+    match body as body {
+        [4294967296, 3, 0123456789, ""packet"", """ ++ [128512]%N ++ runes_of_ascii """] : T,
+        [""a\\""] : T,
+        ""\n"" : u8x,
+    },
+}//x
+
+root packet lengthOf {
+}")).
 Eval vm_compute in ("<<<M1734>>>" ++ check (runes_of_ascii "
 // a // b
 	packet
@@ -844,61 +734,46 @@ u@calculatedFrom( // `tick` ""quote"" 'q'
     u8x , uint32  uint8x  , } , int8
     asx ``,}
 ")).
-Eval vm_compute in ("<<<M1310>>>" ++ check (runes_of_ascii "
-packet
-A
-	{
+Eval vm_compute in ("<<<M1451>>>" ++ check (runes_of_ascii "  packet
+len
+	{ }
 
-u8 a
-	, } packet
-    B 
-{ u16 b
-,
-	} packet
-    C 
-{	u32 
-c,
+options { 
+Z9_=
+    4294967296;
 
+_x =  // a // b
+	0
+f32a=zchar[
+42 ]
+;
 }
-	root
-    packet
 
-    M
-	{u16
+root
+	packet 
+        // @lengthOf(
+	BodyLength 	 // trailing space 
+	{ }
 
-    Kc ,
-u16 Kb
-	, u16
-    Ka
+options
+{
 
-,
-match  Kc
+    string_
+	=
+	u32
 
-    as
-X
-	{9
-:A
+;
+	charz
+    = 
+	/// triple
+    	// packet A { u8 x, }
+    string ;
+	}
 
-    ,
-10
-:B  , } ,match	Kb  as
-Y{	2
-: C
-,  1 :A
-
-,
-
-} ,  match	Ka
-    as
-Z {
-1 :
-B	, 
-}, A 
-,B
-, C
-,
-
-    }")).
+packet
+len  {
+}
+")).
 Eval vm_compute in ("<<<M1348>>>" ++ check (runes_of_ascii "options {
     LittleEndian = false;
     StringPrefixLenType = u16;
